@@ -790,4 +790,219 @@ theorem filled_eq_anySome (h : Hints) (g : GQR) (b : Blk) : (buildQ h g b).2.fil
 theorem resolve_build' (h : Hints) (recs : List Rec) : (build h recs).qrs.map (resolveQ (build h recs)) = expectedQrs h recs :=
   resolve_build h recs (filled_eq_anySome h)
 
+/-! ### malformed messages -/
+
+theorem keep_true {α : Type} (o : Option α) : keep true o = o := rfl
+
+def MmInv (b : Blk) (exp : List GMM) : Prop :=
+  b.mms.map (resolveM b) = exp ∧ ∀ m ∈ b.mms, ∀ b', Ext b b' → resolveM b' m = resolveM b m
+
+theorem mmInv_ext {b b' : Blk} {exp : List GMM} (hi : MmInv b exp) (he : Ext b b') (hq : b'.mms = b.mms) : MmInv b' exp := by
+  obtain ⟨h1, h2⟩ := hi
+  refine ⟨?_, ?_⟩
+  · rw [hq, ← h1]
+    apply List.map_congr_left
+    intro m hm
+    exact h2 m hm b' he
+  · intro m hm b'' he'
+    rw [hq] at hm
+    rw [h2 m hm b'' (he.trans he'), h2 m hm b' he]
+
+theorem addQR_mms (h : Hints) (g : GQR) (st : Option Stats) (b : Blk) : Ext b (addQR h g st b) ∧ (addQR h g st b).mms = b.mms := by
+  let b0 : Blk := { b with earliest := updEarliest b g.ts }
+  have haddQR : addQR h g st b = setStats (if (buildQ h g b0).2.filled = true
+      then { (buildQ h g b0).1 with qrs := (buildQ h g b0).1.qrs ++ [(buildQ h g b0).2] } else (buildQ h g b0).1) st := rfl
+  rw [haddQR]
+  have e0 : Ext b b0 := ⟨LExt.refl _, LExt.refl _, LExt.refl _, LExt.refl _, LExt.refl _, LExt.refl _, LExt.refl _, LExt.refl _, LExt.refl _⟩
+  have e1 := e0.trans (ext_buildQ h g b0)
+  have m1 : (buildQ h g b0).1.mms = b.mms := (keeps_buildQ h g b0).1.mms
+  have hs : ∀ x : Blk, Ext x (setStats x st) ∧ (setStats x st).mms = x.mms := by
+    intro x; cases st <;> exact ⟨⟨LExt.refl _, LExt.refl _, LExt.refl _, LExt.refl _, LExt.refl _, LExt.refl _, LExt.refl _, LExt.refl _, LExt.refl _⟩, rfl⟩
+  by_cases hf : (buildQ h g b0).2.filled = true
+  · rw [if_pos hf]
+    let b2 : Blk := { (buildQ h g b0).1 with qrs := (buildQ h g b0).1.qrs ++ [(buildQ h g b0).2] }
+    obtain ⟨es, ms⟩ := hs b2
+    have e12 : Ext (buildQ h g b0).1 b2 := ⟨LExt.refl _, LExt.refl _, LExt.refl _, LExt.refl _, LExt.refl _, LExt.refl _, LExt.refl _, LExt.refl _, LExt.refl _⟩
+    exact ⟨(e1.trans e12).trans es, ms.trans m1⟩
+  · rw [if_neg hf]
+    obtain ⟨es, ms⟩ := hs (buildQ h g b0).1
+    exact ⟨e1.trans es, ms.trans m1⟩
+
+theorem addAEC_mms (h : Hints) (g : GAEC) (st : Option Stats) (b : Blk) : (addAEC h g st b).mms = b.mms := by
+  unfold addAEC
+  have hs : (setStats b st).mms = b.mms := by cases st <;> rfl
+  simp only
+  split
+  · exact hs
+  · split <;> exact hs
+
+/-- the malformed message stored by `add_malformed_message` resolves to the message buffered, in any later state -/
+theorem mmInv_addMM (h : Hints) (g : GMM) (st : Option Stats) (b : Blk) (exp : List GMM) (hi : MmInv b exp) :
+    MmInv (addMM h g st b) (exp ++ (if (on h.odh OtherDataHintsMask.malformed_messages && g.anySome) = true then [g] else [])) := by
+  have hs : Ext b (setStats b st) ∧ (setStats b st).mms = b.mms := by
+    cases st <;> exact ⟨⟨LExt.refl _, LExt.refl _, LExt.refl _, LExt.refl _, LExt.refl _, LExt.refl _, LExt.refl _, LExt.refl _, LExt.refl _⟩, rfl⟩
+  have hi0 := mmInv_ext hi hs.1 hs.2
+  unfold addMM
+  simp only
+  split
+  · rename_i hc
+    have hoff : on h.odh OtherDataHintsMask.malformed_messages = false := by simpa using hc
+    rw [hoff]
+    simp only [Bool.false_and, Bool.false_eq_true, if_false, List.append_nil]
+    exact hi0
+  · rename_i hc
+    have hon : on h.odh OtherDataHintsMask.malformed_messages = true := by simpa using hc
+    rw [hon]
+    simp only [Bool.true_and]
+    let B0 : Blk := { setStats b st with earliest := updEarliest (setStats b st) g.ts }
+    let R1 := addOpt true g.clientIp addIp B0
+    let R2 := addOpt true g.serverIp addIp R1.1
+    let D : MMD := { sai := R2.2, port := g.serverPort, tf := g.transportFlags, payload := g.payload }
+    have hiB0 : MmInv B0 exp := mmInv_ext hi0 ⟨LExt.refl _, LExt.refl _, LExt.refl _, LExt.refl _, LExt.refl _, LExt.refl _, LExt.refl _, LExt.refl _, LExt.refl _⟩ rfl
+    have xIp : ∀ b x, Ext b (addIp b x).1 := fun b x => (ext_addIp b x).1
+    have e1 : Ext B0 R1.1 := ext_addOpt _ _ addIp B0 xIp
+    have e2 : Ext R1.1 R2.1 := ext_addOpt _ _ addIp R1.1 xIp
+    have m1 : ∀ (o : Option Bytes) (b' : Blk), (addOpt true o addIp b').1.mms = b'.mms := by
+      intro o b'; unfold addOpt; cases o <;> rfl
+    have k1 : Looks R1.1.ip R1.2 g.clientIp := looks_addOpt true g.clientIp addIp (fun b => b.ip) B0 (fun b x => (ext_addIp b x).2)
+    have k2 : Looks R2.1.ip R2.2 g.serverIp := looks_addOpt true g.serverIp addIp (fun b => b.ip) R1.1 (fun b x => (ext_addIp b x).2)
+    have hiR2 : MmInv R2.1 exp := mmInv_ext hiB0 (e1.trans e2) (by rw [m1, m1])
+    split
+    · -- message data is stored, hence the message is
+      rename_i hdf0
+      have hdf : (D.sai.isSome || D.port.isSome || D.tf.isSome || D.payload.isSome) = true := hdf0
+      simp only [Option.isSome_some, Bool.or_true, if_true]
+      obtain ⟨e3, l3⟩ := ext_addMmd R2.1 D
+      let M : MMRec := { ts := g.ts, cai := R1.2, cport := g.clientPort, mdi := some (addMmd R2.1 D).2 }
+      let F : Blk := { (addMmd R2.1 D).1 with mms := (addMmd R2.1 D).1.mms ++ [M] }
+      have eF : Ext (addMmd R2.1 D).1 F := ⟨LExt.refl _, LExt.refl _, LExt.refl _, LExt.refl _, LExt.refl _, LExt.refl _, LExt.refl _, LExt.refl _, LExt.refl _⟩
+      have hany : g.anySome = true := by
+        have : (g.serverIp.isSome || g.serverPort.isSome || g.transportFlags.isSome || g.payload.isSome) = true := by
+          rw [← k2.isSome_eq]; exact hdf
+        simp [GMM.anySome, this]
+      have hnew : ∀ b', Ext F b' → resolveM b' M = g := by
+        intro b' he
+        have eD : Ext (addMmd R2.1 D).1 b' := eF.trans he
+        have hd : b'.mmd[(addMmd R2.1 D).2]? = some D := eD.mmd _ _ l3
+        apply GMM.ext
+        · rfl
+        · exact (k1.ext ((e2.trans e3).trans eD).ip).bind
+        · rfl
+        · show (((some (addMmd R2.1 D).2).bind fun i => b'.mmd[i]?).getD {}).sai.bind (fun i => b'.ip[i]?) = g.serverIp
+          rw [Option.bind_some, hd]; exact (k2.ext (e3.trans eD).ip).bind
+        · show (((some (addMmd R2.1 D).2).bind fun i => b'.mmd[i]?).getD {}).port = g.serverPort
+          rw [Option.bind_some, hd]; rfl
+        · show (((some (addMmd R2.1 D).2).bind fun i => b'.mmd[i]?).getD {}).tf = g.transportFlags
+          rw [Option.bind_some, hd]; rfl
+        · show (((some (addMmd R2.1 D).2).bind fun i => b'.mmd[i]?).getD {}).payload = g.payload
+          rw [Option.bind_some, hd]; rfl
+      rw [hany]
+      simp only [if_true]
+      show MmInv F (exp ++ [g])
+      obtain ⟨h1, h2⟩ := mmInv_ext hiR2 e3 rfl
+      refine ⟨?_, ?_⟩
+      · show ((addMmd R2.1 D).1.mms ++ [M]).map (resolveM F) = _
+        rw [List.map_append, List.map_singleton, hnew F (Ext.refl F), ← h1]
+        congr 1
+      · intro m hm b' he'
+        have hm' : m ∈ (addMmd R2.1 D).1.mms ++ [M] := hm
+        rcases List.mem_append.1 hm' with hq | hq
+        · rw [h2 m hq b' (eF.trans he'), h2 m hq F eF]
+        · rw [List.mem_singleton.1 hq, hnew b' he', hnew F (Ext.refl F)]
+    · -- no message data
+      rename_i hdf0
+      have hdf' : (D.sai.isSome || D.port.isSome || D.tf.isSome || D.payload.isSome) = false := by
+        have : ¬ (D.sai.isSome || D.port.isSome || D.tf.isSome || D.payload.isSome) = true := hdf0
+        simpa using this
+      have hparts := hdf'
+      simp only [Bool.or_eq_false_iff, isSome_eq_false_iff, D] at hparts
+      obtain ⟨⟨⟨hsai, hport⟩, htf⟩, hpl⟩ := hparts
+      have hsip : g.serverIp = none := (k2.none_iff).1 hsai
+      let M : MMRec := { ts := g.ts, cai := R1.2, cport := g.clientPort, mdi := none }
+      split
+      · rename_i hmf0
+        have hmf : (M.ts.isSome || M.cai.isSome || M.cport.isSome || M.mdi.isSome) = true := hmf0
+        let F : Blk := { R2.1 with mms := R2.1.mms ++ [M] }
+        have eF : Ext R2.1 F := ⟨LExt.refl _, LExt.refl _, LExt.refl _, LExt.refl _, LExt.refl _, LExt.refl _, LExt.refl _, LExt.refl _, LExt.refl _⟩
+        have hany : g.anySome = true := by
+          have : (g.ts.isSome || g.clientIp.isSome || g.clientPort.isSome) = true := by
+            rw [← k1.isSome_eq]; simpa [M] using hmf
+          simp only [GMM.anySome]
+          simp only [Bool.or_eq_true] at this ⊢
+          rcases this with (h' | h') | h'
+          · exact Or.inl (Or.inl (Or.inl h'))
+          · exact Or.inl (Or.inl (Or.inr h'))
+          · exact Or.inl (Or.inr h')
+        have hnew : ∀ b', Ext F b' → resolveM b' M = g := by
+          intro b' he
+          apply GMM.ext
+          · rfl
+          · exact (k1.ext ((e2.trans eF).trans he).ip).bind
+          · rfl
+          · show ((none : Option MMD).getD {}).sai.bind (fun i => b'.ip[i]?) = g.serverIp
+            rw [hsip]; rfl
+          · exact hport.symm
+          · exact htf.symm
+          · exact hpl.symm
+        rw [hany]
+        simp only [if_true]
+        show MmInv F (exp ++ [g])
+        obtain ⟨h1, h2⟩ := hiR2
+        refine ⟨?_, ?_⟩
+        · show (R2.1.mms ++ [M]).map (resolveM F) = _
+          rw [List.map_append, List.map_singleton, hnew F (Ext.refl F), ← h1]
+          congr 1
+        · intro m hm b' he'
+          have hm' : m ∈ R2.1.mms ++ [M] := hm
+          rcases List.mem_append.1 hm' with hq | hq
+          · rw [h2 m hq b' (eF.trans he'), h2 m hq F eF]
+          · rw [List.mem_singleton.1 hq, hnew b' he', hnew F (Ext.refl F)]
+      · -- nothing at all in the message: it is not stored
+        rename_i hmf0
+        have hany : g.anySome = false := by
+          have hmf' : (M.ts.isSome || M.cai.isSome || M.cport.isSome || M.mdi.isSome) = false := by
+            have : ¬ (M.ts.isSome || M.cai.isSome || M.cport.isSome || M.mdi.isSome) = true := hmf0
+            simpa using this
+          simp only [Bool.or_eq_false_iff, isSome_eq_false_iff, M] at hmf'
+          obtain ⟨⟨⟨h1, h2⟩, h3⟩, _⟩ := hmf'
+          have hcip : g.clientIp = none := (k1.none_iff).1 h2
+          simp [GMM.anySome, h1, hcip, h3, hsip, hport, htf, hpl]
+        rw [hany]
+        simp only [Bool.false_eq_true, if_false, List.append_nil]
+        exact hiR2
+
+theorem expectedMms_cons (h : Hints) (r : Rec) (rs : List Rec) :
+    expectedMms h (r :: rs) = (match r with
+      | .mm g _ => if (on h.odh OtherDataHintsMask.malformed_messages && g.anySome) = true then [g] else []
+      | _ => []) ++ expectedMms h rs := by
+  cases r with
+  | qr g st => simp [expectedMms]
+  | aec g st => simp [expectedMms]
+  | mm g st =>
+    unfold expectedMms
+    rw [List.filterMap_cons]
+    by_cases ha : (on h.odh OtherDataHintsMask.malformed_messages && g.anySome) = true
+    · simp only [ha, if_true]; rfl
+    · simp only [ha, if_false]; rfl
+
+/-- **Malformed messages are read back unchanged, in order.** -/
+theorem resolve_build_mm (h : Hints) (recs : List Rec) : (build h recs).mms.map (resolveM (build h recs)) = expectedMms h recs := by
+  unfold build
+  have gen : ∀ (b : Blk) (exp : List GMM), MmInv b exp → MmInv (recs.foldl (addRec h) b) (exp ++ expectedMms h recs) := by
+    induction recs with
+    | nil => intro b exp hi; simpa [expectedMms] using hi
+    | cons r rs ih =>
+      intro b exp hi
+      rw [List.foldl_cons, expectedMms_cons, ← List.append_assoc]
+      cases r with
+      | qr g st =>
+        obtain ⟨e, q⟩ := addQR_mms h g st b
+        simpa [addRec] using ih _ _ (mmInv_ext hi e q)
+      | aec g st =>
+        simpa [addRec] using ih _ _ (mmInv_ext hi (ext_addAEC h g st b).1 (addAEC_mms h g st b))
+      | mm g st =>
+        exact ih _ _ (mmInv_addMM h g st b exp hi)
+  have := gen {} [] ⟨rfl, fun q hq => by cases hq⟩
+  simpa using this.1
+
 end CdnsVerif.Model.Builder
